@@ -60,6 +60,10 @@ func zzShape(k int) zzGraph {
 		p0.Group, p1.Group = g, g
 		c0 := zzTask("c0", TaskDep{Head: p0, Partition: 0})
 		return zzGraph{[]*Task{a0, a1, p0, p1, c0}, []*Task{c0}}
+	case 9: // a root without dependencies next to a root with one: r0 ; d <- r1
+		r0, dd := zzTask("r0"), zzTask("d")
+		r1 := zzTask("r1", zzDep(dd))
+		return zzGraph{[]*Task{r0, dd, r1}, []*Task{r0, r1}}
 	case 8: // two independent tasks
 		t, x := zzTask("t"), zzTask("x")
 		return zzGraph{[]*Task{t, x}, []*Task{t, x}}
